@@ -873,6 +873,24 @@ func (g *gen) passOps() {
 			}
 		}
 	}
+	// scheduled interleavings: a call paused at a store operation while others complete
+	for _, at := range []string{"get", "set", "mutate"} {
+		for _, parked := range []string{"enable", "disable", setup(t0+5, "right"), setup(t0+5, "wrong"), issue(t0+1, ten)} {
+			for _, mid := range [][]string{
+				{setup(t0+6, "right")},
+				{setup(t0+6, "wrong"), setup(t0+7, "right")},
+				{setup(t0+6, "wrong"), setup(t0+7, "wrong"), setup(t0+8, "wrong")},
+				{"disable"},
+				{issue(t0+2, ten), setup(t0+6, "right")},
+			} {
+				ops := []string{"create", issue(t0, ten), "park at=" + at + " " + parked}
+				ops = append(ops, mid...)
+				ops = append(ops, "release", setup(t0+9, "right"), setup(t0+10, "right"), setup(t0+11, "old"))
+				hist(ops...)
+				g.rep.Count("passcode:scheduled")
+			}
+		}
+	}
 	// random histories up to length 16
 	for i := 0; i < g.n(1500, 120000); i++ {
 		n := 2 + g.r.Intn(15)
@@ -918,6 +936,17 @@ func (g *gen) passOps() {
 			}
 			if g.r.Intn(4) == 0 {
 				now += hx.Pick(g.r, []int64{1, 1e9, 60e9, 300e9, 601e9})
+			}
+		}
+		// one call in three histories is paused at a store operation and released later (or never)
+		if g.r.Intn(3) == 0 && len(ops) > 2 {
+			i := 1 + g.r.Intn(len(ops)-1)
+			if o := ops[i]; o != "create" && o != "remove" {
+				ops[i] = "park at=" + hx.Pick(g.r, []string{"get", "set", "mutate"}) + " " + o
+				if j := i + 1 + g.r.Intn(len(ops)-i); j < len(ops) {
+					ops = append(ops[:j], append([]string{"release"}, ops[j:]...)...)
+				}
+				g.rep.Count("passcode:scheduled")
 			}
 		}
 		hist(ops...)
